@@ -20,7 +20,7 @@ def fn(typeidx, toks, locals_=()):
     return d
 
 
-def sample_module(it):
+def sample_module(it, extra_void=False):
     """1 imported + 6 defined functions using calls, locals, blocks, memory, globals, call_indirect"""
     from .rules import c03
     S, c = c03.script, c03.const
@@ -32,9 +32,12 @@ def sample_module(it):
         fn(2, S(c('i32', 16), ('local.get', {'imm0': 0}), ('f64.store', {'align': 3, 'offset': 0}), c('i32', 3), ('global.set', {'imm0': 0}))),
         fn(0, S(c('i32', 0), ('call_indirect', {'typeidx': 0, 'tableidx': 0}))),
     ]
-    return M.build(it, types=[([], ['i32']), (['i32', 'i64'], ['i32']), (['f64'], [])], func_imports=[('env', 'imp', 0)], functions=funcs,
+    if extra_void:
+        # a void function that returns with operands still on the stack (valid), emitted before functions with results when its ID comes first
+        funcs.append(fn(3, S(c('i64', 1), c('i32', 9), 'return')))
+    return M.build(it, types=[([], ['i32']), (['i32', 'i64'], ['i32']), (['f64'], []), ([], [])], func_imports=[('env', 'imp', 0)], functions=funcs,
                    memories=[(1, 2, False)], globals_=[('i32', True, M.i32_const(7))], tables=[(2, 2, False)],
-                   element_segments=[(0, M.i32_const(0), [1, 3])], exports=[('run', 0, 6), ('store', 0, 5)],
+                   element_segments=[(0, M.i32_const(0), [1, 3])] if not extra_void else [], exports=[('run', 0, 6), ('store', 0, 5)] if not extra_void else [],
                    data_segments=[(0, M.i32_const(32), 3, False)])
 
 
